@@ -154,7 +154,7 @@ F_Tok(id, ans) ==
            f == [fet EXCEPT !.q = <<e>> \o Tail(fet.q)]
            g0 == [fet EXCEPT !.q = Tail(fet.q), !.batch = IF acc THEN Append(fet.batch, e) ELSE fet.batch]
            g == Settle(g0)
-       IN fet' = g /\ aux' = AuxFet(f, g, IF acc THEN {e.id} ELSE {})
+       IN fet' = g /\ aux' = AuxFet(f, g, IF ans = e.claim THEN {e.id} ELSE {})    \* the evidence is the answer, not the decision
     /\ UNCHANGED <<cfg, run, failed, pol, han, reo, reqQ, outs>>
 
 \* an attestation-shaped event that does not come from the token bridge can never be forwarded: no call is required
